@@ -222,18 +222,22 @@ impl ArrayImpl {
 
     pub fn like(&self, pattern: &str) -> Result {
         /// Converts a SQL LIKE pattern to a regex pattern.
+        ///
+        /// `%` and `_` match any characters including line feeds (`(?s)`); every other
+        /// character stands for itself, so it is escaped.
         fn like_to_regex(pattern: &str) -> String {
-            let mut regex = String::with_capacity(pattern.len());
-            regex.push('^');
+            let mut re = String::with_capacity(pattern.len() + 6);
+            re.push_str("(?s)^");
+            let mut buf = [0u8; 4];
             for c in pattern.chars() {
                 match c {
-                    '%' => regex.push_str(".*"),
-                    '_' => regex.push('.'),
-                    c => regex.push(c),
+                    '%' => re.push_str(".*"),
+                    '_' => re.push('.'),
+                    c => re.push_str(&regex::escape(c.encode_utf8(&mut buf))),
                 }
             }
-            regex.push('$');
-            regex
+            re.push('$');
+            re
         }
         let A::String(a) = self else {
             return Err(ConvertError::NoUnaryOp("like".into(), self.type_string()));
